@@ -1,6 +1,7 @@
 -- FAMILIES: conv=TF.Drv.Conv.conv
 import TF.Drv.Proto
 import TF.Model.Conv
+import TF.Gen.ConvLoops
 /-! driver handler for the family `conv` (C20). Strings travel as lists of their UTF-8 byte values. -/
 namespace TF.Drv.Conv
 open TF.Proto TF.Conv TF.Gen
@@ -38,7 +39,7 @@ def bigVal : List Nat → Nat
   | [] => 0
   | x :: xs => x + 4294967296 * bigVal xs
 
-def conv : Handler
+def convModel : Handler
   | "d_to_bytes", [x] => do let d ← dig x; pure ("ok:" ++ fmtList (digestToBytes d))
   | "d_from_bytes", [x] => do let b ← bytes x; pure (okLE (digestFromBytes b))
   | "d_from_array", [x] => do
@@ -84,5 +85,73 @@ def conv : Handler
   | "d_to_vec", [x] => do let d ← dig x; pure ("ok:" ++ fmtList (digestToVec d))
   | "d_consts", [] => some ("ok:" ++ fmtList [DIGEST_LEN, digestBytesConst])
   | _, _ => none
+
+/-! ### BT5: the conversions regenerated from source (`TF/Gen/ConvLoops.lean`) evaluated next to the hand model.
+The regenerated code works on raw Montgomery words: operands go in through the translated `bfe_new`, results come back
+through the translated `bfe_value`; a panic of the regenerated code (`_ok = false`) is printed as `panic`. -/
+open TF.Gen.Loops in
+def toOptE {α : Type} : Except String α → Option α
+  | .ok v => some v
+  | .error _ => none
+
+open TF.Gen.Loops in
+def convGen : Handler
+  | "d_to_bytes", [x] => do
+      let d ← dig x; let r := d.map bfe_new
+      pure (if conv_digest_to_bytes_ok r then "ok:" ++ fmtList (conv_digest_to_bytes r) else "panic")
+  | "d_from_bytes", [x] => do
+      let b ← bytes x
+      pure (if conv_digest_try_from_slice_ok b then okLE ((toOptE (conv_digest_try_from_slice b)).map (·.map bfe_value)) else "panic")
+  | "d_from_array", [x] => do
+      let b ← bytes x
+      if b.length == 40 then
+        pure (if conv_digest_try_from_array_ok b then okLE ((toOptE (conv_digest_try_from_array b)).map (·.map bfe_value)) else "panic")
+      else none
+  | "d_bytes_roundtrip", [x] => do
+      let d ← dig x; let r := d.map bfe_new
+      pure (okLE ((toOptE (conv_digest_try_from_slice (conv_digest_to_bytes r))).map (·.map bfe_value)))
+  | "d_to_big", [x] => do
+      let d ← dig x; let r := d.map bfe_new
+      pure (if conv_digest_to_biguint_ok r then s!"ok:{conv_digest_to_biguint r}" else "panic")
+  | "d_from_big", [x] => do
+      let ds ← x.natList?; let v := bigVal ds
+      pure (if conv_digest_try_from_biguint_ok v then okLE ((toOptE (conv_digest_try_from_biguint v)).map (·.map bfe_value)) else "panic")
+  | "d_big_roundtrip", [x] => do
+      let d ← dig x; let r := d.map bfe_new
+      pure (okLE ((toOptE (conv_digest_try_from_biguint (conv_digest_to_biguint r))).map (·.map bfe_value)))
+  | "d_cmp", [x, y] => do
+      let a ← dig x; let b ← dig y
+      pure (if conv_digest_cmp_ok (a.map bfe_new) (b.map bfe_new) then
+        (match conv_digest_partial_cmp (a.map bfe_new) (b.map bfe_new) with
+         | some o => if o == conv_digest_cmp (a.map bfe_new) (b.map bfe_new) then "ok:" ++ fmtOrd o else "partial_cmp-differs"
+         | none => "partial_cmp-none") else "panic")
+  | "bfe_to_bytes", [.nat v] =>
+      if v < P then some (if conv_bfe_to_bytes_ok (bfe_new v) then "ok:" ++ fmtList (conv_bfe_to_bytes (bfe_new v)) else "panic") else none
+  | "bfe_from_bytes", [x] => do
+      let b ← bytes x
+      pure (if conv_bfe_try_from_slice_ok b then okNE ((toOptE (conv_bfe_try_from_slice b)).map bfe_value) else "panic")
+  | "bfe_from_array", [x] => do
+      let b ← bytes x
+      if b.length == 8 then
+        pure (if conv_bfe_try_from_array_ok b then okNE ((toOptE (conv_bfe_try_from_array b)).map bfe_value) else "panic")
+      else none
+  | "x_to_digest", [x] => do
+      let t ← x.triple?
+      pure ("ok:" ++ fmtList ((conv_xfe_to_digest [bfe_new t.1, bfe_new t.2.1, bfe_new t.2.2]).map bfe_value))
+  | "x_from_digest", [x] => do
+      let d ← dig x
+      pure (match toOptE (conv_xfe_try_from_digest (d.map bfe_new)) with
+        | some l => "ok:" ++ fmtTriple (bfe_value (l.getD 0 0), bfe_value (l.getD 1 0), bfe_value (l.getD 2 0))
+        | none => "err")
+  | "d_reversed", [x] => do
+      let d ← dig x
+      pure ("ok:" ++ fmtList ((conv_digest_reversed (conv_digest_values (conv_digest_new (d.map bfe_new)))).map bfe_value))
+  | _, _ => none
+
+/-- the family handler: the hand model's reply; where the regenerated code has an opinion it must be the same -/
+def conv : Handler := fun op args =>
+  match convModel op args, convGen op args with
+  | some m, some g => some (if g == m then m else "GEN-MISMATCH gen=" ++ g ++ " model=" ++ m)
+  | m, _ => m
 
 end TF.Drv.Conv
